@@ -417,6 +417,21 @@ class Bench:
 
         if (seams.buf_digest(x.signal), seams.buf_digest(x.noise)) != dig0:
             raise Violation("C09/len", f"{what}: PD modified its input", "mutate")
+        # the owner of the field rescales it *in place* (same object, same buffer) and detects it again:
+        # the signal part must follow the field as it is now (quadratic in amplitude)
+        if x.signal.flags.writeable and op["inseed"] % 2:
+            x.signal *= 2.0
+            if x.noise is not None:
+                x.noise *= 2.0
+            with ScriptedRNG("zero"):
+                y4 = self._pd(x, op)
+            s4 = np.asarray(y4.signal).real
+            if not np.allclose(s4, 4.0 * s0, rtol=1e-8, atol=1e-11 * scale_s * 4):
+                raise Violation("C09/square-law", f"{what}: after the caller doubled the field in place the signal part is "
+                                                  f"not 4 x the previous one (max dev {np.max(np.abs(s4 - 4 * s0)):.3e} of "
+                                                  f"{4 * scale_s:.3e}): detection does not follow the field as passed",
+                                "inplace-rescale")
+            self.rec.fault("scribble")
         if not np.array_equal(np.asarray(y0.signal).real, s0) or not np.array_equal(
                 np.zeros(n) if y0.noise is None else np.asarray(y0.noise, dtype=float), n0):
             raise Violation("C09/len", f"{what}: an earlier result changed while later calls were made (shared buffer)",
